@@ -450,6 +450,45 @@ def c_err(name):
     return name
 
 
+def holds_in_fresh_process(pid, replay):
+    """Evaluate a replay dict ({'oracle':..,'input':..}) in a NEW interpreter (no state left over
+    from this run): True iff the property holds on it.  Used to confirm and shrink histories."""
+    BUILD.mkdir(exist_ok=True)
+    p = BUILD / ('fresh_%s_%d.json' % (pid, os.getpid()))
+    p.write_text(json.dumps({'replay': replay}, default=str))
+    rc, out = sh([sys.executable, '-m', 'harness.main', pid, '--replay', str(p)], cwd=VERIF, env=_pyenv(), timeout=600)
+    p.unlink()
+    return rc == 0
+
+
+def shrink_history(pid, oracle, items, key='calls', extra=None):
+    """Delta-debug a failing history (list) with every candidate judged in a fresh process."""
+    def fails(seq):
+        inp = dict(extra or {})
+        inp[key] = seq
+        return not holds_in_fresh_process(pid, {'oracle': oracle, 'input': inp})
+    seq = list(items)
+    if not fails(seq):
+        return None          # does not reproduce from a clean start
+    # first cut the tail after the failing point by bisection on prefixes
+    lo, hi = 1, len(seq)
+    while lo < hi:
+        mid = (lo + hi) // 2
+        if fails(seq[:mid]):
+            hi = mid
+        else:
+            lo = mid + 1
+    seq = seq[:lo]
+    i = 0
+    while i < len(seq) - 1:
+        cand = seq[:i] + seq[i + 1:]
+        if fails(cand):
+            seq = cand
+        else:
+            i += 1
+    return seq
+
+
 def load_known():
     p = VERIF / 'known_findings.json'
     if not p.exists():
